@@ -136,7 +136,7 @@ purge loop: the definite-hang pattern) [PROGRESS]; the segment tree allocates on
 mask builders compute for the stored domain maximum - allocation and addressing evaluate, as linear forms over the
 layout's fields with the private helpers inlined, to the same mapping of the same endpoint [SIZING]. Not decided:
 termination in general (the repair recursion, loops whose conditions do change but need not converge), the arithmetic of
-the seg layout itself (that the last bucket is the highest position a mask names, that it stays below 63: C14 / C15). The removal repair hands a black deficit up on every path on which it was not absorbed [DEFICIT], and the (node, parent) cursors of an upward loop stay a child / parent pair in both halves of the step [CLIMB]: the shape invariants the reasoned exceptions lean on survive repairs that climb more than one level.""",
+the seg layout itself (that the last bucket is the highest position a mask names, that it stays below 63: C14 / C15). The removal repair hands a black deficit up on every path on which it was not absorbed [DEFICIT], and the (node, parent) cursors of an upward loop stay a child / parent pair in both halves of the step [CLIMB]: the shape invariants the reasoned exceptions lean on survive repairs that climb more than one level. The unsafe surface: the only unsafe idiom the rules account for is unchecked element access; any other unsafe or ownership-bending operation (raw reads and writes, transmute, zeroed / uninitialised values, forget, set_len, from_raw_parts ..) is reported as outside what is decided [UNCHECKED]; on the library as it is this reports one genuine defect, recorded as a known finding (D8: the key tree's pool filler is `mem::zeroed()` of a caller-chosen type, so `KeyExpTree::new` aborts for key types without an all-zero value).""",
      ["C02 for the reasoned exceptions (inner child of a rotated node, sibling of a double-black node, non-root has a parent); its structural part is re-checked here through TWIN"],
      {'NULL': 190, 'PROVENANCE': 150, 'STALE': 20, 'UNCHECKED': 14, 'PANICSITE': 60, 'TWIN': 70, 'PROGRESS': 30, 'SIZING': 1, 'DEFICIT': 3})
 
